@@ -281,7 +281,9 @@ def MA.seenContains (m : MA) (fp : FP) : Bool := m.seen.any (· == fp)
 
 /-- `attach_alias_locations_if_missing` -/
 def attachAlias (e : DErr) (ref defined : Loc) : DErr :=
-  if ref != 0 && defined != 0 && ref != defined then ⟨"AliasError", ref, defined⟩
+  -- an inner access already attached both locations: the enclosing accesses keep them
+  if e.kind == "AliasError" then e
+  else if ref != 0 && defined != 0 && ref != defined then ⟨"AliasError", ref, defined⟩
   else if e.loc != 0 || e.kind == "AliasError" then e
   else { e with loc := if ref != 0 then ref else defined }
 
